@@ -19,7 +19,7 @@ import vf, airalglib as al
 
 META = dict(
     technique="TLA+ definitions of boundary constraints over toy prime fields: TLC computes complete expected values (Generate->Replay on the real BoundaryConstraints::new through AirContext over toy fields) and validates the recorded coefficient assignments and group evaluations (Record->Validate, TraceBoundary.tla)",
-    text="Every non-overlapping pair of assertion shapes at trace length 8 over F_97 (one column, two columns, main/auxiliary), every shape at length 16, seeded sets of up to 8+4 assertions at lengths 16/32 over F_257/F_193 and sequences of 64..256 values with zero and non-zero first step over F_40961 (L = 128..512): each real constraint evaluates to zero at g^s exactly on the asserted value (all 97 field values for P = 97, 8-11 candidates otherwise, base and extension trace values), each group divisor has the asserted points as its exact zero set over the whole trace domain, degree = number of asserted steps, and the TLC-computed values on the LDE coset and at out-of-domain points; constraint values at out-of-domain points equal t - b(x). For 2-4 orderings of each list the assertion -> coefficient assignment read from cc() is a bijection and identical, and every group's evaluate_at equals SUM cc*(state[col]-b(x))/Z(x) as validated by TLC; the prover's constraint evaluator (DefaultConstraintEvaluator over DefaultTraceLde, transition constraints identically zero) returns SUM_a cc_a (T_col(x)-b_a(x))/Z_a(x) at every point of the constraint evaluation domain for L <= 32 and at 12 sampled points for the long sequences (release builds).",
+    text="Every non-overlapping pair of assertion shapes at trace length 8 over F_97 (one column, two columns, main/auxiliary), every shape at length 16, seeded sets of up to 8+4 assertions at lengths 16/32 over F_257/F_193 and sequences of 64..256 values with zero and non-zero first step over F_40961 (L = 128..512): each real constraint evaluates to zero at g^s exactly on the asserted value (all 97 field values for P = 97, 8-11 candidates otherwise, base and extension trace values), each group divisor has the asserted points as its exact zero set over the whole trace domain, degree = number of asserted steps, and the TLC-computed values on the LDE coset and at out-of-domain points; constraint values at out-of-domain points equal t - b(x). For 2-4 orderings of each list the assertion -> coefficient assignment read from cc() is a bijection and identical, and every group's evaluate_at equals SUM cc*(state[col]-b(x))/Z(x) as validated by TLC; the prover's constraint evaluator (DefaultConstraintEvaluator over DefaultTraceLde, transition constraints identically zero) returns SUM_a cc_a (T_col(x)-b_a(x))/Z_a(x) at every point of the constraint evaluation domain for L <= 32 and at 12 sampled points for the long sequences, with the LDE blowup 1x, 2x, 4x and 8x the constraint evaluation blowup (as far as the field has roots of unity; all four for the long sequences) (release builds).",
     note="Toy fields stand in for the production fields. Which coefficient an assertion receives is not fixed by the property and not gated (only bijectivity and order independence are). The byte-identity of whole proofs under permuted assertion lists is the end-to-end half of the property and belongs to the Determinism engine (C06/C01 group). The prover's evaluator is exercised in release builds only (its degree validation of the all-zero transition constraints is a debug assertion).",
     design="7/C22")
 
@@ -149,7 +149,8 @@ def run(ck, tier):
                  "each": "L = 16, F_97 and F_257: each of the 60 shapes with a companion (main or auxiliary)",
                  "rand": "L = 16, 32 over F_257, F_193: %d seeded sets each (<= 8 main, <= 4 aux candidates, greedy non-overlap)" % (40 if thorough else 8),
                  "long": "F_40961, L in 128..512 (1024 thorough): sequences of 64/128/256 values, first step 0 and > 0, two per group + single + periodic + auxiliary sequence",
-                 "orderings": "identity, reverse, rotation, seeded shuffle of each list"}
+                 "orderings": "identity, reverse, rotation, seeded shuffle of each list",
+                 "prover_evaluator": "option blowup in {2,4,8,16} = {1,2,4,8} x ce blowup while L*blowup <= 2^two-adicity: F_97 L=8 {1x,2x}, L=16 {1x}; F_257 L=16 all, L=32 up to 4x; F_193 up to 2x; F_40961 all"}
     ck.exhaustive = False
     ck.assumptions = ["toy field types implement FieldP.tla's arithmetic and get_root_of_unity returns RootOfUnity(P, k)",
                       "validity of an assertion set is C21's predicate (Assertions.tla: fits the length and width, pairwise no common cell per segment)",
